@@ -105,6 +105,7 @@ structure DSt where
   sCases : Nat := 0
   sTypeKey : Nat := 0     -- S cases whose state holds a dictionary with an unregistered `type`
   sMods : Nat := 0
+  sNumText : Nat := 0     -- S cases with a modified number whose config text does not read back identically
   wCases : Nat := 0
   kills : Nat := 0
   killOld : Nat := 0
@@ -206,10 +207,50 @@ def normOrig : V → V
   | .null => .obj []
   | v => v
 
+/-- The oracle for the config writer's number text: token before ↦ token after (`none` = does not compile). -/
+abbrev NumOracle := List (Tok × Option Tok)
+
+def parseOracle (s : String) : Option NumOracle :=
+  if s == "-" then some []
+  else (s.splitOn ",").mapM (fun pr =>
+    match pr.splitOn ">" with
+    | [a, b] => some (a.toUTF8.toList, if b == "!" then none else some b.toUTF8.toList)
+    | _ => none)
+
+mutual
+def mapNums (orc : NumOracle) : V → V
+  | .num t => match orc.lookup t with
+    | some (some t') => .num t'
+    | _ => .num t
+  | .arr xs => .arr (mapNumsL orc xs)
+  | .obj kvs => .obj (mapNumsM orc kvs)
+  | v => v
+def mapNumsL (orc : NumOracle) : List V → List V
+  | [] => []
+  | x :: xs => mapNums orc x :: mapNumsL orc xs
+def mapNumsM (orc : NumOracle) : List (Key × V) → List (Key × V)
+  | [] => []
+  | (k, v) :: r => (k, mapNums orc v) :: mapNumsM orc r
+end
+
+mutual
+def hasBadNum (orc : NumOracle) : V → Bool
+  | .num t => orc.lookup t == some none
+  | .arr xs => hasBadNumL orc xs
+  | .obj kvs => hasBadNumM orc kvs
+  | _ => false
+def hasBadNumL (orc : NumOracle) : List V → Bool
+  | [] => false
+  | x :: xs => hasBadNum orc x || hasBadNumL orc xs
+def hasBadNumM (orc : NumOracle) : List (Key × V) → Bool
+  | [] => false
+  | (_, v) :: r => hasBadNum orc v || hasBadNumM orc r
+end
+
 /-- The modified-attributes half of a restart through the model: the spec's config object, its runtime
     modifications (`modify`), `dumpModified`, and the replay onto the freshly loaded object.  Returns
-    (vars, notes, original_attributes) before and after, as JSON values. -/
-def modattrModel (spec : V) : Option ((V × V × V) × (V × V × V)) :=
+    (vars, notes, original_attributes) before and after, as JSON values, and whether the file loads. -/
+def modattrModel (orc : NumOracle) (spec : V) : Option ((V × V × V) × (V × V × V) × Bool) :=
   match spec with
   | .obj kvs =>
     let vars := match dGet? "vars".toList kvs with
@@ -225,10 +266,14 @@ def modattrModel (spec : V) : Option ((V × V × V) × (V × V × V)) :=
       | _ => []
     let fresh : Obj Tok := { fields := [("notes".toList, notes), ("vars".toList, vars)], original := none }
     let ob := mods.foldl (fun o m => match modify o m.1 m.2 with | .ok o' => o' | .error _ => o) fresh
-    let oa := replayModified fresh (dumpModified ob)
+    -- the script holds the dumped values as the config writer prints them (oracle); if one of them does not compile
+    -- the whole file is rejected at start-up
+    let ents := dumpModified ob
+    let loadable := !(ents.any (fun e => hasBadNum orc e.2))
+    let oa := if loadable then replayModified fresh (ents.map (fun e => (e.1, mapNums orc e.2))) else fresh
     let view := fun (o : Obj Tok) =>
       ((dGet? "vars".toList o.fields).getD .null, (dGet? "notes".toList o.fields).getD .null, normOrig (origToJson o.original))
-    some (view ob, view oa)
+    some (view ob, view oa, loadable)
   | _ => none
 
 def cfgView (c : V) : V × V × V :=
@@ -239,9 +284,9 @@ def cfgView (c : V) : V × V × V :=
 
 def handleS (d : DSt) (n : Nat) (sh : String) (post : List String) : IO DSt := do
   match post with
-  | [kn, sbh, sah, cbh, cah] =>
-    match unhexJson sbh, unhexJson sah, unhexJson cbh, unhexJson cah with
-    | some (.obj sb), some (.obj sa), some cb, some ca =>
+  | [kn, sbh, sah, cbh, cah, loadedS, orcS] =>
+    match unhexJson sbh, unhexJson sah, unhexJson cbh, unhexJson cah, parseBool? loadedS, parseOracle orcS with
+    | some (.obj sb), some (.obj sa), some cb, some ca, some loaded, some orc =>
       let knownL := parseKnown kn
       let known : Key → Bool := fun k => knownL.contains k
       let mut d := { d with steps := d.steps + 1, sCases := d.sCases + 1 }
@@ -263,15 +308,24 @@ def handleS (d : DSt) (n : Nat) (sh : String) (post : List String) : IO DSt := d
       let hasType := !onlyKnownTypesM known o.fields
       if hasType then d := { d with sTypeKey := d.sTypeKey + 1 }
       -- model: runtime modifications → DumpModifiedAttributes → replay at start-up
-      match (unhexJson sh) >>= modattrModel with
-      | some (mb, ma) =>
-        if mb != cfgView cb then
+      match (unhexJson sh) >>= modattrModel orc with
+      | some (mb, ma, mloaded) =>
+        if mloaded != loaded then
+          IO.println s!"MISMATCH line={n} case={d.caseNo} op=S what=modified_attributes_file_loads:impl={loaded};model={mloaded}"
+          d := { d with mismatches := d.mismatches + 1 }
+        else if mb != cfgView cb then
           IO.println s!"MISMATCH line={n} case={d.caseNo} op=S what=modified_attributes_before_restart"
           d := { d with mismatches := d.mismatches + 1 }
         else if ma != cfgView ca then
           IO.println s!"MISMATCH line={n} case={d.caseNo} op=S what=modified_attributes_after_restart"
           d := { d with mismatches := d.mismatches + 1 }
       | none => IO.println s!"BADLINE line={n}"
+      match specModattrLoad loaded with
+      | some cl =>
+        IO.println s!"SPECFAIL line={n} case={d.caseNo} clause={cl.name} tags=loadfail"
+        d := { d with specfails := d.specfails + 1 }
+      | none => pure ()
+      if !orc.isEmpty then d := { d with sNumText := d.sNumText + 1 }
       let cfgVerdict := specRestartConfig cb ca
       let cfgSame := cfgVerdict.isNone
       let hasMods := match cb with
@@ -286,7 +340,7 @@ def handleS (d : DSt) (n : Nat) (sh : String) (post : List String) : IO DSt := d
         IO.println s!"SPECFAIL line={n} case={d.caseNo} clause={Clause.stateRoundtrip.name} tags={tagStr tags}"
         d := { d with specfails := d.specfails + 1 }
       return { d with caseNontrivial := true }
-    | _, _, _, _ => IO.println s!"BADLINE line={n}"; return d
+    | _, _, _, _, _, _ => IO.println s!"BADLINE line={n}"; return d
   | _ => IO.println s!"BADLINE line={n}"; return d
 
 def parseEv (s : String) : Option SysEv :=
@@ -386,4 +440,4 @@ def main : IO Unit := do
   let stdin ← IO.getStdin
   let d ← foldLines stdin handle ({} : DSt)
   let d := closeCase d
-  IO.println s!"STATS cases={d.caseNo} steps={d.steps} m_cases={d.mCases} modifies={d.mOps} restores={d.rOps} op_errors={d.mErr} restores_checked={d.rChecked} s_cases={d.sCases} s_typekey={d.sTypeKey} s_modattrs={d.sMods} writes={d.wCases} kills={d.kills} kill_old={d.killOld} kill_new={d.killNew} fault_mkstemp={d.fMkstemp} fault_chmod={d.fChmod} fault_write={d.fWrite} fault_write_partial={d.fWritePartial} fault_fsync={d.fFsync} fault_close={d.fClose} fault_rename={d.fRename} fault_unlink={d.fUnlink} fault_none={d.fEnd} stale_tmp_seen={d.leftovers} nontrivial={d.nontrivial} mismatches={d.mismatches} specfails={d.specfails}"
+  IO.println s!"STATS cases={d.caseNo} steps={d.steps} m_cases={d.mCases} modifies={d.mOps} restores={d.rOps} op_errors={d.mErr} restores_checked={d.rChecked} s_cases={d.sCases} s_typekey={d.sTypeKey} s_modattrs={d.sMods} s_numtext={d.sNumText} writes={d.wCases} kills={d.kills} kill_old={d.killOld} kill_new={d.killNew} fault_mkstemp={d.fMkstemp} fault_chmod={d.fChmod} fault_write={d.fWrite} fault_write_partial={d.fWritePartial} fault_fsync={d.fFsync} fault_close={d.fClose} fault_rename={d.fRename} fault_unlink={d.fUnlink} fault_none={d.fEnd} stale_tmp_seen={d.leftovers} nontrivial={d.nontrivial} mismatches={d.mismatches} specfails={d.specfails}"
